@@ -1,5 +1,5 @@
 (* C04 — "A swap moves exactly the traded tokens and is all-or-nothing": property theorems only. *)
-From GV Require Import lib.Base C01.Model MK.Market MK.Swap MK.MarketProofs MK.SwapProofs C04.Proofs.
+From GV Require Import lib.Base C01.Model MK.Market MK.Swap MK.Liquidity MK.MarketProofs MK.SwapProofs C04.Proofs C04.History C04.HistoryProofs MK.Examples.
 Open Scope Z_scope.
 
 (* [use L]: close the goal with lemma L; section hypotheses L did not need are dropped. *)
@@ -31,3 +31,66 @@ Proof. use swap_out_le_holdings. Qed.
 Theorem c04_swap_fail_unchanged : forall w unit cfg s il a ps e,
   swap_exec w unit cfg s il a ps = Err e -> swap_step w unit cfg s il a ps = s.
 Proof. use swap_fail_unchanged. Qed.
+
+(* History form.  [step] applies a swap / deposit / withdrawal to the market (new state on
+   success, the old state on failure), [net_in] is what the action moves into (+) or out of (-)
+   the market's vault for one token, [net_mint] the market tokens it mints / burns.
+   One action: holdings move by exactly the net transfer, supply by exactly the net mint,
+   nothing else changes. *)
+Theorem c04_step_ledger : forall w, 1 <= w -> forall unit, 0 < unit -> forall cfg s x,
+  wf_state w s -> 0 <= value_to_amount_divisor s -> wf_action w x ->
+  (forall il, holdings (step w unit cfg s x) il = holdings s il + net_in w unit cfg s x il) /\
+  total_supply (step w unit cfg s x) = total_supply s + net_mint w unit cfg s x /\
+  same_rest s (step w unit cfg s x) /\ vi_follows s (step w unit cfg s x) /\ wf_state w (step w unit cfg s x).
+Proof. intros; eapply step_ledger; eassumption. Qed.
+
+(* Every history of deposits, withdrawals and swaps (successful or not, in any order, at any
+   prices): the holdings of each token equal the initial holdings plus the sum of the net
+   transfers, the supply equals the initial supply plus the net mints, every other field of
+   the market is the initial one. *)
+Theorem c04_history_ledger : forall w, 1 <= w -> forall unit, 0 < unit -> forall cfg xs s,
+  wf_state w s -> 0 <= value_to_amount_divisor s -> Forall (wf_action w) xs ->
+  (forall il, holdings (fold_left (step w unit cfg) xs s) il = holdings s il + ledger w unit cfg s xs il) /\
+  total_supply (fold_left (step w unit cfg) xs s) = total_supply s + mint_ledger w unit cfg s xs /\
+  same_rest s (fold_left (step w unit cfg) xs s) /\ vi_follows s (fold_left (step w unit cfg) xs s) /\
+  wf_state w (fold_left (step w unit cfg) xs s).
+Proof. intros; eapply history_ledger; eassumption. Qed.
+
+(* a failed action of any kind is the identity *)
+Theorem c04_step_fail_unchanged : forall w unit cfg s x,
+  match x with
+  | ASwap il a ps => exists e, swap_exec w unit cfg s il a ps = Err e
+  | ADeposit l sh ps => exists e, deposit_exec w unit cfg s l sh ps = Err e
+  | AWithdraw a ps => exists e, withdraw_exec w unit cfg s a ps = Err e
+  end -> step w unit cfg s x = s.
+Proof. intros w unit cfg s [il a ps|l sh ps|a ps] [e H]; cbn [step]; rewrite H; reflexivity. Qed.
+
+(* ---------- non-vacuity: concrete u64/9 market (default configuration) ---------- *)
+(* a successful swap with negative impact: 1 token goes to the impact pool, 259 to the fee pool *)
+Example c04_ex_swap_ok :
+  exists s' r, swap_exec 64 (10 ^ 9) cfg64 ex_market true 1000000 ex_prices = Ok (s', r) /\
+    sr_out r = 119915880 /\ sr_impact_value r = -77 /\
+    primary s' = mkPool 1000999740 99880084120 /\ swap_impact s' = mkPool 5001 7000 /\ fee s' = mkPool 259 0.
+Proof. eexists. eexists. split; [vm_compute; reflexivity|]. repeat split. Qed.
+
+(* capped positive impact draining both impact pools *)
+Example c04_ex_swap_capped :
+  exists s' r, swap_exec 64 (10 ^ 9) cfg64 ex_market_small_impact false 10000000000 ex_prices = Ok (s', r) /\
+    sr_out r = 82603310 /\ sr_impact_value r = 1600 /\ sr_impact_amount r = 5 /\ swap_impact s' = mkPool 0 0.
+Proof. eexists. eexists. split; [vm_compute; reflexivity|]. repeat split. Qed.
+
+(* a failing swap (more than the pool can pay) *)
+Example c04_ex_swap_fail :
+  swap_exec 64 (10 ^ 9) cfg64 ex_market_small_impact true 10000000000 ex_prices = Err E_COMP.
+Proof. vm_compute. reflexivity. Qed.
+
+Example c04_ex_wf : wf_state 64 ex_market /\ wf_prices 64 ex_prices /\ in_range 64 1000000.
+Proof. unfold wf_state, wf_prices, wf_price, wf_pool, wf_opool, in_range; cbn. lia. Qed.
+
+(* a history: deposit, swap, failing swap, withdrawal *)
+Example c04_ex_history :
+  let xs := [ADeposit 1000000 0 ex_prices; ASwap true 1000000 ex_prices; ASwap true 100000000000 ex_prices;
+             AWithdraw 1000000 ex_prices] in
+  ledger 64 (10 ^ 9) cfg64 ex_market xs true = 1995849 /\ ledger 64 (10 ^ 9) cfg64 ex_market xs false = -120329647 /\
+  mint_ledger 64 (10 ^ 9) cfg64 ex_market xs = 129225390.
+Proof. vm_compute. repeat split. Qed.
